@@ -209,7 +209,8 @@ Definition grant_spec (present valid admin_empty : bool) (token_level : Z) : Z :
    passwords.  A token is (user, password it was signed with): it verifies iff that is the user's current password.
    Operations (all on /device, admin): set a user's password (PATCH), restore the device document (PUT — "password
    fields are ignored", the passwords stay), change another attribute (PATCH).  An operation takes effect iff the
-   specification serves it.  Factory reset (POST /reset factory) legitimately empties the passwords; not used. *)
+   specification serves it.  OpRestart is not a request: the hub process stops and starts again from its store — "a
+   restart changes no credential".  Factory reset (POST /reset factory) legitimately empties the passwords; not used. *)
 Inductive user := UAdmin | UNormal | UViewonly.
 Definition user_level (u : user) : Z := match u with UAdmin => LV_ADMIN | UNormal => LV_NORMAL | UViewonly => LV_VIEWONLY end.
 
@@ -225,7 +226,7 @@ Definition pw_set (st : pwstate) (u : user) (p : Z) : pwstate :=
   end.
 
 Inductive credential := CrNone | CrToken (u : user) (p : Z) | CrGarbage.
-Inductive op := OpSetPw (u : user) (p : Z) | OpPutDevice | OpPatchOther.
+Inductive op := OpSetPw (u : user) (p : Z) | OpPutDevice | OpPatchOther | OpRestart.
 Definition op_meth (o : op) : meth := match o with OpPutDevice => PUT | _ => PATCH end.
 Definition apply_op (o : op) (st : pwstate) : pwstate := match o with OpSetPw u p => pw_set st u p | _ => st end.
 
@@ -238,8 +239,11 @@ Definition cred_level (g : bool -> bool -> bool -> Z -> Z) (st : pwstate) (c : c
   | CrGarbage => g true false ae LV_NONE
   end.
 
+Definition is_restart (o : op) : bool := match o with OpRestart => true | _ => false end.
+
 Definition step_spec (st : pwstate) (o : op) (c : credential) : pwstate * bool :=
-  if required_spec RDevice (op_meth o) <=? cred_level grant_spec st c then (apply_op o st, true) else (st, false).
+  if is_restart o then (st, true)
+  else if required_spec RDevice (op_meth o) <=? cred_level grant_spec st c then (apply_op o st, true) else (st, false).
 
 (* a history: operations with the credential used and what was observed; then probes (URL shape, method, credential,
    observed) on the final state.  true = the real application did what the specification prescribes throughout *)
@@ -249,7 +253,7 @@ Definition hprobe := (string * meth * credential * obs)%type.
 Fixpoint hist_spec_ok (st : pwstate) (steps : list hstep) (probes : list hprobe) : bool :=
   match steps with
   | (o, c, ob) :: r =>
-      spec_ok 0 (route_template RDevice) (op_meth o) (cred_level grant_spec st c) true ob
+      (is_restart o || spec_ok 0 (route_template RDevice) (op_meth o) (cred_level grant_spec st c) true ob)
       && hist_spec_ok (fst (step_spec st o c)) r probes
   | [] => forallb (fun p : hprobe => let '(t, m, c, ob) := p in spec_ok 0 t m (cred_level grant_spec st c) true ob) probes
   end.
